@@ -60,6 +60,10 @@ def run(ctx):
                            f'{cname}.{mname} uses the rule {node.func.attr}; the propositional libraries may use only '
                            f'{sorted(ALLOWED_PRIMITIVES)}', py.where(ci.module, node))
         ctx.ob('primitive-confinement', cname, True, 'only propositional primitives are reachable', py.where(ci.module, ci.node))
+    build_subst_contract(ctx, py)
+    # the resolution front-end advertises clause_conjunctionto_pattern(clauses): nesting of the conjunction of trivial-clause proofs
+    from .c09 import fold_direction
+    fold_direction(ctx, py)
     # a reference lemma that left the analysed subset fails the run closed - unless a violation already explains it
     if broken and not any(not o['ok'] for o in ctx.obligations):
         ctx.require(False, broken[0])
@@ -77,6 +81,67 @@ def run(ctx):
                         '(modus_ponens, dynamic_inst as simultaneous instantiation, prop1-3 = spec/axioms.py)',
                         'replayed conclusion equals static conclusion (ProofThunk assertion, decided under C08)', 'python ast']
     ctx.assumptions = ['instantiation is simultaneous (C11)', 'notation expansion as read from pattern.py']
+
+
+def build_subst_contract(ctx, py):
+    """the schema typing reads `_build_subst([a0, .., an])` as the simultaneous substitution phi_i := a_i.  That is what the helper
+    computes iff it drops an entry only when it is the identity, i.e. when a_i is STRUCTURALLY the unconstrained metavariable
+    MetaVar(i) (a constrained metavariable with the same id is a different pattern and must be substituted)."""
+    from ..core.pyeval import PyEval, show
+    fn = py.function('proofs.propositional', '_build_subst')
+    where = py.where('proofs.propositional', fn)
+    ctx.require(len(fn.args.args) == 1, '_build_subst: unexpected signature')
+    PATS = ('param', fn.args.args[0].arg)
+
+    def is_enum(v):
+        return v[0] == 'call' and v[1] == ('name', 'enumerate') and v[2] == (PATS,)
+
+    def identity_test(c, idx, pat):
+        mv = ('call', ('name', 'MetaVar'), (idx,), ())
+        return c[0] == 'cmp' and c[1] == '==' and {c[2], c[3]} == {mv, pat}
+
+    n = 0
+    ret = fn.body[-1]
+    comp = ret.value if isinstance(ret, ast.Return) and isinstance(ret.value, ast.DictComp) else None
+    if comp is not None:
+        # {i: p for i, p in enumerate(pats) if p != MetaVar(i)}
+        g = comp.generators[0]
+        ok = len(comp.generators) == 1 and ast.unparse(g.iter) == f'enumerate({PATS[1]})' and isinstance(g.target, ast.Tuple) \
+            and len(g.target.elts) == 2 and ast.unparse(comp.key) == ast.unparse(g.target.elts[0]) \
+            and ast.unparse(comp.value) == ast.unparse(g.target.elts[1])
+        i_, p_ = (ast.unparse(e) for e in g.target.elts) if ok else ('', '')
+        filt_ok = all(ast.unparse(f) in (f'{p_} != MetaVar({i_})', f'MetaVar({i_}) != {p_}', f'not {p_} == MetaVar({i_})') for f in g.ifs)
+        ctx.ob('helper-contract', '_build_subst', ok and filt_ok,
+               f'_build_subst must map position i to the i-th pattern and may drop only entries equal to MetaVar(i); its comprehension '
+               f'`{ast.unparse(comp)[:120]}` does something else', where)
+        ctx.analysed['_build_subst loop paths'] = 1
+        return
+    for p in PyEval().paths(fn):
+        loops = [e for e in p.events if e.kind == 'loop']
+        good_shape = p.end[0] == 'return' and p.end[1][0] == 'dict' and len(loops) == 1 and is_enum(loops[0].value[2])
+        ctx.require(good_shape, f'_build_subst: shape outside the analysed idioms (a loop over enumerate({PATS[1]}) filling a dict, or a '
+                                f'dict comprehension)')
+        elem = ('elem', loops[0].value[2])
+        idx, pat = ('item', elem, 0), ('item', elem, 1)
+        for sp in loops[0].extra:
+            n += 1
+            stores = [e for e in sp.events if e.kind == 'setitem']
+            if stores:
+                good = len(stores) == 1 and stores[0].value[1] == idx and stores[0].value[2] == pat
+                ctx.ob('helper-contract', f'_build_subst/store{n}', good,
+                       f'_build_subst stores `{show(stores[0].value[1])}` -> `{show(stores[0].value[2])}`; the typing of every lemma assumes '
+                       f'position i maps to the i-th pattern', where)
+                # an entry may only be kept under conditions that do not also exclude non-identity entries: nothing to check,
+                # keeping an identity entry is harmless
+                continue
+            drops_identity_only = any(b is True and identity_test(c, idx, pat) for c, b in sp.conds)
+            why = ' and '.join(f'{show(c)} is {b}' for c, b in sp.conds) or 'unconditionally'
+            ctx.ob('helper-contract', f'_build_subst/drop{n}', drops_identity_only and sp.end[0] in ('fall', 'continue'),
+                   f'_build_subst drops the entry for position i when {why[:200]}; only an argument that is structurally the unconstrained '
+                   f'MetaVar(i) may be dropped (a metavariable with side conditions and the same id is a different pattern and must be '
+                   f'substituted), otherwise every lemma built on it concludes a schema other than the documented one', where)
+    ctx.analysed['_build_subst loop paths'] = n
+    ctx.floor('helper-contract', 2)
 
 
 def _enclosing(tree, node) -> str:
